@@ -236,6 +236,7 @@ PROPS["C05"] = {
     "legs": [
         Leg("message", "c05", "^TestMessage$", checks=(60000, 2000000), shards=(2, 16), tests=["message"]),
         Leg("siblings", "c05", "^TestSiblings$", checks=(6000, 150000), shards=(2, 16), tests=["siblings"]),
+        Leg("siblings-race", "c05", "^TestSiblings$", race=True, checks=(1500, 30000), shards=(2, 8), tests=["siblings"], replay_attempts=5),
         Leg("parallel", "c05", "^TestParallel$", engine="sched", checks=(1500, 30000), shards=(2, 16), tests=["parallel"], replay_attempts=5),
         Leg("parallel-race", "c05", "^TestParallel$", engine="sched", race=True, checks=(300, 5000), shards=(2, 8), tests=["parallel"], replay_attempts=5),
         Leg("first-use-race", "c05", "^TestParallel$", engine="sched", race=True, checks=(2, 2), shards=(12, 64), env={"VERIF_FIRST_USE": "1"}, tests=["parallel"], replay_attempts=5),
